@@ -6,7 +6,11 @@ WHICH = {"eventmonitor_init": ("verify_eventmonitor_init", "amaranth_soc.csr.eve
                                ["csr.event.EventMonitor.__init__::mask-register-size-is-ceil(events/data_width)",
                                 "csr.event.EventMonitor.__init__::both-mask-registers-fit-the-address-space"]),
          "wb_csr_bridge_init": ("verify_wb_csr_bridge_init", "amaranth_soc.csr.wishbone.WishboneCSRBridge.__init__",
-                                ["csr.wishbone.WishboneCSRBridge.__init__::wishbone-address-space-times-ratio-covers-the-csr-space"])}
+                                ["csr.wishbone.WishboneCSRBridge.__init__::wishbone-address-space-times-ratio-covers-the-csr-space"]),
+         "sram_init": ("verify_sram_init", "amaranth_soc.wishbone.sram.WishboneSRAM.__init__",
+                       ["wishbone.sram.WishboneSRAM.__init__::bus-addresses-exactly-the-granules-of-the-map",
+                        "wishbone.sram.WishboneSRAM.__init__::accepts-only-valid-parameters",
+                        "wishbone.sram.WishboneSRAM.__init__::memory-is-the-only-resource-named-mem-of-the-full-size"])}
 
 
 def add_to(run, names):
